@@ -250,6 +250,21 @@ func (f *WXY) Candidates(r *rand.Rand, n int) [][]byte {
 		q.Y = f.C.F.Add(q.Y, f.C.F.Int(1))
 		pts = append(pts, q)
 		pts = append(pts, WPoint{X: f.randFe(r, i%2 == 1), Y: f.randFe(r, false)})
+		if d := f.C.F.Deg; d > 1 {
+			// off the curve in only part of the components of y^2 - x^3 - b: one component of one coordinate
+			// of a member negated (over Fp2: the conjugate, or minus the conjugate, of that coordinate)
+			m := f.C.Mul(randBelow(r, f.C.Order), f.base)
+			x, y := append(Fe{}, m.X...), append(Fe{}, m.Y...)
+			c := (i + 2*d - 1) % (2 * d) // y components first
+			t := y
+			if c < d {
+				t = x
+			}
+			if t[c%d].Sign() != 0 {
+				t[c%d] = new(big.Int).Sub(p, t[c%d])
+				pts = append(pts, WPoint{X: x, Y: y})
+			}
+		}
 	}
 	pts = append(pts, f.C.Infinity())
 	badPrefix := []int{0, 2, 3, 5, 6, 7, 0x84, 0xff}
